@@ -272,6 +272,11 @@ pub struct TestPort {
     pub last_view: Option<std::sync::Arc<std::sync::Mutex<Option<Vec<String>>>>>,
     /// the longest read timeout the device takes (a longer one is refused with fail_kind, every time)
     pub max_timeout: Option<Duration>,
+    /// a device whose read_settings keeps answering with the settings it had when it was opened (serial_core does not
+    /// promise that a read reflects an earlier write)
+    pub stale_reads: Option<PortSettings>,
+    /// a device whose write_settings re-initialises the channel and with it forgets the read timeout
+    pub write_resets_timeout: bool,
 }
 impl Drop for TestPort {
     fn drop(&mut self) {
@@ -315,6 +320,8 @@ impl TestPort {
             flush_fails: false,
             last_view: None,
             max_timeout: None,
+            stale_reads: None,
+            write_resets_timeout: false,
             opaque: [false; 5],
         }
     }
@@ -344,7 +351,7 @@ impl SerialDevice for TestPort {
         if self.fail == FailAt::Read {
             return Err(self.fail_kind.error());
         }
-        Ok(FSettings { inner: self.settings, fail_baud: if self.fail == FailAt::Baud { Some(self.fail_kind) } else { None }, opaque: self.opaque })
+        Ok(FSettings { inner: self.stale_reads.unwrap_or(self.settings), fail_baud: if self.fail == FailAt::Baud { Some(self.fail_kind) } else { None }, opaque: self.opaque })
     }
     fn write_settings(&mut self, settings: &FSettings) -> serial_core::Result<()> {
         self.config_calls.push("write_settings");
@@ -354,6 +361,9 @@ impl SerialDevice for TestPort {
         // a field the caller never set stays whatever the device had
         self.settings = settings.inner;
         self.opaque = settings.opaque;
+        if self.write_resets_timeout {
+            self.timeout = None;
+        }
         Ok(())
     }
     fn timeout(&self) -> Duration {
@@ -987,12 +997,13 @@ pub fn eval_io_case(t: &[&str]) -> Option<String> {
                 "S" => FlowControl::FlowSoftware,
                 _ => FlowControl::FlowHardware,
             };
-            // fail token: <point>[:<kind letter>]
-            let (fpoint, fkind) = t[6].split_once(':').unwrap_or((t[6], ""));
+            // fail token: <point>[:<kind letter>][~<flavour letters>]  (flavours: s = stale reads, w = a write forgets the timeout)
+            let (ftoken, flavour) = t[6].split_once('~').unwrap_or((t[6], ""));
+            let (fpoint, fkind) = ftoken.split_once(':').unwrap_or((ftoken, ""));
             // "above<ns>": no call refuses outright, but the device takes no timeout longer than that many nanoseconds
             let max_timeout = fpoint.strip_prefix("above").map(|n| Duration::from_nanos(n.parse().unwrap()));
             let fpoint = if max_timeout.is_some() { "timeout" } else { fpoint };
-            let fail = match t[6].split(':').next().unwrap() {
+            let fail = match ftoken.split(':').next().unwrap() {
                 x if x.starts_with("above") => FailAt::None,
                 "none" => FailAt::None,
                 "read" => FailAt::Read,
@@ -1006,6 +1017,10 @@ pub fn eval_io_case(t: &[&str]) -> Option<String> {
             port.opaque = [opaque[0], opaque[1], opaque[2], opaque[3], opaque[4]];
             port.fail_kind = FailKind::of_str(fkind);
             port.max_timeout = max_timeout;
+            if flavour.contains('s') {
+                port.stale_reads = Some(port.settings);
+            }
+            port.write_resets_timeout = flavour.contains('w');
             let want_kind = port.fail_kind.kind();
             let view = port.watch();
             let ctor: Vec<&str> = t[7].split('.').collect();
